@@ -91,6 +91,11 @@ CHECKS = {
    text="Exhaustive within the bound: all navigations of <=3 (quick) / <=7 (thorough) steps from 4 roots over 3 struct types (fields, nil pointers, slices, slices of pointers, arrays, maps, value/pointer-receiver methods returning strings, structs, pointers, nil), steps = field (existing/missing/unexported/through nil), index (literal and variable, out of range), map key (present/missing), method call; 3 uses each. Real code: a completed navigation must render exactly the leaf that spells that Go path (computed by the harness from the Go navigation itself), an impossible one must be an error or empty output; never another leaf, never a panic.",
    note="Trusted: the harness's Go graph mirrors the spec's graph (mismatch would show as failures on the unchanged tree). Methods with arguments and paths inside index expressions are not walked.",
    design="§6 C11"),
+ "C17": dict(
+   technique="TLC explicit-state enumeration of bodies x composition mechanisms x content types (GenCompose.tla) over the reference semantics with InlineTheorem (composed = inline, a program transformation) and FrameTheorem as invariants; composed and inlined programs replayed into real plush.Render",
+   text="Exhaustive within the bound: bodies of <=2 (quick) / <=3 (thorough) of 9 item kinds x 17 mechanisms (partials with/without data, extensions, one/two layouts, layout under javascript, nested partial, contentFor/contentOf once, twice with different data, redefined, default block, undefined name, unused default, block helpers with caller's / own context, string-returning block helper) x 3 content types: 4.6k / 42k programs, each with its inlined equivalent where one exists. Real output must equal the model's for composed and inlined source (JavaScript escaping per character as Go's template.JSEscapeString).",
+   note="Trusted: PlushSem.tla's composition rules (child scope, data, trusted result, layout recursion, contentFor closure in the defining scope). JS escaping is modelled per character class as the pinned Go toolchain does it.",
+   design="§6 C17"),
 }
 
 NOT_YET = "check not built yet in this session (work in progress, see DESIGN.md §8)"
